@@ -225,6 +225,37 @@ theorem retainLoopW_dropT :
         · rw [retainLoopW_dropT]; exact touched_dropT touch c ev made i
         · rw [retainLoopW_dropT]; exact touched_dropT touch c ev made i
 
+/-- the loop keeps the shape, whatever the callback answers, writes, or wherever it panics -/
+theorem retainLoopW_same :
+    ∀ (fuel i del : Nat) (c : Cols) (vis : List (List Nat)) (ev : Ev) (made : List Nat), c.lock n → i + fuel = n → del ≤ i →
+      c.same (Model.retainLoop keep boom touch fuel i del c vis ev made).c
+  | 0, i, del, c, vis, ev, made, _, _, _ => by simpa [Model.retainLoop] using same_refl c
+  | fuel + 1, i, del, c, vis, ev, made, hc, hi, hd => by
+    have hc1 := touched_lock touch n c ev made i hc
+    have hs1 := touched_same touch c ev made i
+    have hin : i < n := by omega
+    rw [retainLoop_succ]
+    split
+    · exact hs1
+    · split
+      · exact same_trans _ _ _ hs1 (retainLoopW_same fuel (i + 1) (del + 1) _ _ _ _ hc1 (by omega) (by omega))
+      · split
+        · cases perField0 (swapOp (i - del) i) (touched touch c ev made i).1 n hc1 with
+          | ok s hrun _ hpn hst _ hlk _ hsm _ =>
+            rw [rows_noArgs _ n hc1] at hrun
+            have hlen := rows_len n _ hc1
+            have hlt : i - del < n := by omega
+            simp only [swapOp, PolyOp.ofTotal_run, hlen, hlt, hin, decide_true, List.length_nil, BEq.rfl,
+              Bool.and_self, ↓reduceIte, Option.some.injEq] at hrun
+            subst hrun
+            simp only at hst
+            have hlk' := lock_of_rows_len hlk (k := n) (by rw [hst]; simp [hlen])
+            exact same_trans _ _ _ hs1 (same_trans _ _ _ hsm (retainLoopW_same fuel (i + 1) del _ _ _ _ hlk' (by omega) (by omega)))
+          | fail _ hfail _ _ _ =>
+            have hlt : i - del < n := by omega
+            simp [swapOp, hlt, hin] at hfail
+        · exact same_trans _ _ _ hs1 (retainLoopW_same fuel (i + 1) del _ _ _ _ hc1 (by omega) (by omega))
+
 end retainw
 
 end Soa.Lp
